@@ -163,6 +163,7 @@ def run(ck: Checker):
     ck.floor('C07.BASIS-REACH', 10)
     R.check_add_only(ck, 'C07.ADD-ONLY', [SUM, R.ARITH + '._utils'])
     R.check_fresh_labels(ck, 'C07.ADD-ONLY', [SUM])
+    R.check_fresh_generated(ck, 'C07.ADD-ONLY', [SUM])
     ck.floor('C07.ADD-ONLY', 20)
     R.check_args(ck, eff, 'C07.ARGS', [SUM, R.ARITH + '._utils'])
     ck.floor('C07.ARGS', 30)
